@@ -118,7 +118,7 @@ def harness_json(case):
         inputs.append(d)
     j = {'id': case['id'], 'args': case.get('args') or cfg_args(case['cfg']) + case.get('extra_args', []),
          'inputs': inputs, 'files': case.get('files', False)}
-    for k in ('out_room', 'err_room'):
+    for k in ('out_room', 'err_room', 'dir', 'links'):
         if case.get(k) is not None: j[k] = case[k]
     return json.dumps(j)
 
@@ -144,6 +144,8 @@ def run_harness(cases, timeout=40, shards=NPROC, max_hangs=3):
     the remaining cases are reported 'not-run' (the check has its failing input; a change that hangs on many inputs
     must not make the check itself run for an hour)."""
     import threading
+    ids = [c['id'] for c in cases]
+    if len(set(ids)) != len(ids): raise ValueError('duplicate case ids: %s' % sorted(i for i, n in __import__('collections').Counter(ids).items() if n > 1)[:5])
     tmp = os.path.join(BUILD, 'tmp'); os.makedirs(tmp, exist_ok=True)
     per = len(cases) // max(1, min(shards, max(1, len(cases)))) + 1
     t0 = max(timeout, 20 + per // 20)
@@ -203,6 +205,8 @@ def run_harness(cases, timeout=40, shards=NPROC, max_hangs=3):
 
 def run_model(cases, timeout=120, shards=NPROC):
     timeout = max(timeout, 60 + len(cases) // max(1, shards) // 10)      # ~0.1 s per case per shard at worst
+    ids = [c['id'] for c in cases]
+    if len(set(ids)) != len(ids): raise ValueError('duplicate case ids: %s' % sorted(i for i, n in __import__('collections').Counter(ids).items() if n > 1)[:5])
     out = {}
     groups = _shards(cases, shards)
     procs = []
